@@ -12,21 +12,28 @@ import numpy as np
 from hypothesis import strategies as st
 from hypothesis.stateful import RuleBasedStateMachine, initialize, precondition, rule
 
-from vf import gen
+import copy
+
+from vf import gen, refsim, sfrun
 from vf.core import Sub, Violation
 
-RULE = ("histories of <= 24 actions {New(k), Del, Coherent(amp(index)), Rgate, BSgate, MeasureHomodyne(select), invalid access "
-        "(deleted / foreign / duplicate target), run segment [optionally querying a subset]} over consecutive Program segments on one "
-        "engine per backend (gaussian, fock pure, fock mixed; bosonic for single-segment histories), <= 6 indices ever, <= 4 active; "
+RULE = ("histories of <= 24 actions {New(k), Del, Coherent(amp(index)), Rgate, BSgate(theta, phi), MeasureHomodyne(select), invalid access "
+        "(deleted / foreign / duplicate target), run segment [optionally querying a subset; optionally written as a brand-new Program instead of "
+        "Program(previous)]} over consecutive Program segments on one engine per backend (gaussian, fock pure, fock mixed; bosonic for "
+        "single-segment histories), <= 6 indices ever, <= 4 active; flavour 'squeezed' adds Sgate and drives the phase-space backends only; "
         "non-trivial = a Del of a non-last mode followed by a state query, or a New after a Del")
 ASSUMPTIONS = [
     "amplitudes are read from the returned state (means / quad_expectation) with tolerance 2e-3 (Fock cutoff 6, |alpha| <= 0.52)",
+    "gaussian / bosonic: full means and covariance of the returned modes vs refsim of the history, 1e-8 (2e-4 after a post-selected homodyne: eps-POVM)",
+    "a segment written as a fresh Program(k): the engine may refuse it (RuntimeError 'Register mismatch', the model is rolled back) or accept it; "
+    "if accepted every invariant must hold, including consecutive never-reused indices",
     "bosonic engine: every Program restarts the simulator (finding F10, open) - bosonic is driven only through the first segment of a history",
     "run(modes=subset): subset refers to positions in the list of active modes for fock/gaussian (observed, consistent with mode_names); the "
     "check demands that the returned labels and data belong together, whichever convention the backend uses",
     "TensorFlow backend not exercised (not installed)",
 ]
-REQUIRED_LABELS = {"all": ["del_first_mode", "new_multi", "second_segment", "invalid_access", "new_after_del", "subset_query_after_del"]}
+REQUIRED_LABELS = {"all": ["del_first_mode", "new_multi", "second_segment", "invalid_access", "new_after_del", "subset_query_after_del",
+                           "flavour:squeezed", "new_with_correlated_modes", "fresh_program_rejected", "fresh_program_accepted"]}
 
 BACKENDS = ["gaussian", "fock_pure", "fock_mixed", "bosonic"]
 CUTOFF = 6
@@ -37,15 +44,23 @@ def amp(i):
     return 0.12 + 0.08 * i
 
 
+class _FreshUnbuildable(Exception):
+    """a segment written against a brand-new Program refers to an index that program does not have"""
+
+
 class World:
     """interprets a history on the model and on the engines"""
 
-    def __init__(self, ctx, n0):
+    def __init__(self, ctx, n0, flavour="coherent"):
         import strawberryfields as sf
 
         self.sf = sf
         self.ctx = ctx
         self.n0 = n0
+        self.flavour = flavour  # "coherent": product coherent states on all backends; "squeezed": squeezers and complex beamsplitters, phase-space backends
+        self.ref = refsim.Ref(MAX_EVER, 2.0)  # full Gaussian model: index i <-> reference mode i (never-created / deleted indices are vacuum)
+        self.measured = False
+        self.snap = None
         self.model = {i: 0j for i in range(n0)}  # active index -> amplitude
         self.ever = n0
         self.deleted = []
@@ -54,7 +69,9 @@ class World:
         self.labels = set()
         self.eng = {}
         self.prev = {}
-        for b in BACKENDS:
+        self.backends = BACKENDS if flavour == "coherent" else ["gaussian", "bosonic"]
+        self.labels.add("flavour:" + flavour)
+        for b in self.backends:
             opts = {"cutoff_dim": CUTOFF, "pure": b == "fock_pure"} if b.startswith("fock") else {}
             self.eng[b] = sf.Engine(b.split("_")[0], backend_options=opts)
             self.prev[b] = None
@@ -78,6 +95,13 @@ class World:
             for i in idx:
                 self.model[i] = 0j
             self.ever += k
+            if len(act) >= 2:
+                sub = [i for i in act]
+                V = self.ref.reduced(sub)[1]
+                m = len(sub)
+                off = np.array([[0.0 if a_ % m == b_ % m else V[a_, b_] for b_ in range(2 * m)] for a_ in range(2 * m)])
+                if float(np.max(np.abs(off))) > 1e-3:
+                    self.labels.add("new_with_correlated_modes")
             if k > 1:
                 self.labels.add("new_multi")
             if self.did_del:
@@ -95,17 +119,26 @@ class World:
             del self.model[i]
             self.deleted.append(i)
             self.did_del = True
+            self.ref.trace_out_to_vacuum(i)
             return ["del", i]
         if not act:
             return None
         if kind == "coh":
             i = act[a[1] % len(act)]
             self.model[i] = complex(amp(i))
+            self.ref.Coherent(amp(i), 0.0, i)
             return ["coh", i]
         if kind == "rot":
             i = act[a[1] % len(act)]
             self.model[i] *= np.exp(1j * a[2])
+            self.ref.Rgate(a[2], i)
             return ["rot", i, a[2]]
+        if kind == "sq":
+            if self.flavour != "squeezed":
+                return None
+            i = act[a[1] % len(act)]
+            self.ref.Sgate(a[2], a[3], i)
+            return ["sq", i, a[2], a[3]]
         if kind == "bs":
             if len(act) < 2:
                 return None
@@ -114,23 +147,39 @@ class World:
             if i == j:
                 j = act[(act.index(i) + 1) % len(act)]
             t = a[3]
+            ph = float(a[4]) if len(a) > 4 else 0.0
             ai, aj = self.model[i], self.model[j]
-            self.model[i] = np.cos(t) * ai - np.sin(t) * aj
-            self.model[j] = np.cos(t) * aj + np.sin(t) * ai
-            return ["bs", i, j, t]
+            self.model[i] = np.cos(t) * ai - np.exp(-1j * ph) * np.sin(t) * aj
+            self.model[j] = np.cos(t) * aj + np.exp(1j * ph) * np.sin(t) * ai
+            self.ref.BSgate(t, ph, i, j)
+            return ["bs", i, j, t, ph]
         if kind == "meas":
             i = act[a[1] % len(act)]
             self.model[i] = 0j
+            self.ref.condition_homodyne(0.0, 0.0, i)
+            self.measured = True
             return ["meas", i]
         if kind == "invalid":
             self.labels.add("invalid_access")
             return ["invalid", a[1], a[2]]
         raise ValueError(a)
 
+    def _snapshot(self):
+        return {"model": dict(self.model), "ever": self.ever, "deleted": list(self.deleted), "did_del": self.did_del, "ref": copy.deepcopy(self.ref),
+                "measured": self.measured}
+
+    def _restore(self, sn):
+        self.model, self.ever, self.deleted, self.did_del = dict(sn["model"]), sn["ever"], list(sn["deleted"]), sn["did_del"]
+        self.ref, self.measured = copy.deepcopy(sn["ref"]), sn["measured"]
+
     def step(self, a):
+        if self.snap is None:
+            self.snap = self._snapshot()  # model at the start of the current segment
         if a[0] == "run":
-            self.pending.append(["run", a[1] if len(a) > 1 else None])
-            return self.run_segment()
+            self.pending.append(["run", a[1] if len(a) > 1 else None, bool(a[2]) if len(a) > 2 else False])
+            r = self.run_segment()
+            self.snap = None
+            return r
         r = self.apply_model(a)
         if r is not None:
             self.pending.append(r)
@@ -144,6 +193,10 @@ class World:
         seg = self.pending
         self.pending = []
         query = seg[-1][1] if seg and seg[-1][0] == "run" else None
+        # fresh: the segment is written as a brand-new Program(number of active modes) instead of Program(previous segment); the engine
+        # must either refuse it (register mismatch) or stay consistent with it
+        fresh = bool(seg and seg[-1][0] == "run" and seg[-1][2]) and self.segments >= 1
+        fresh_outcomes = {}
         seg = [s for s in seg if s[0] != "run"]
         self.segments += 1
         if self.segments >= 2:
@@ -159,7 +212,7 @@ class World:
                 self.nontrivial = True
         if self.did_del and "del_non_last" in self.labels:
             self.nontrivial = True
-        for b in BACKENDS:
+        for b in self.backends:
             if b in self.dead:
                 continue
             if b == "bosonic" and self.segments >= 2:
@@ -173,14 +226,27 @@ class World:
                     return r26
                 continue
             sf = self.sf
-            prog = sf.Program(self.n0) if self.prev[b] is None else sf.Program(self.prev[b])
+            is_fresh = fresh and self.prev[b] is not None
+            deferred = None
+            if is_fresh:
+                prog = sf.Program(max(1, len(self.snap["model"])))
+            else:
+                prog = sf.Program(self.n0) if self.prev[b] is None else sf.Program(self.prev[b])
             try:
                 with prog.context as q:
                     regs = {r.ind: r for r in prog.reg_refs.values()}
                     for s in seg:
+                        if is_fresh and s[0] in ("del", "coh", "rot", "sq", "bs", "meas") and any(i not in regs for i in s[1:(3 if s[0] == "bs" else 2)]):
+                            raise _FreshUnbuildable()
                         if s[0] == "new":
                             new = ops.New(s[1])
                             got = [r.ind for r in new]
+                            if got != s[2] and is_fresh:
+                                # a fresh program numbers its own modes; only wrong if the engine then accepts it as a continuation
+                                deferred = ("register.new_index_reused_or_skipped", "a fresh Program accepted as continuation handed out indices %s for New(%d); the engine's history expects %s" % (got, s[1], s[2]))
+                                for r, i_ in zip(new, s[2]):
+                                    regs[i_] = r
+                                continue
                             if got != s[2]:
                                 return self.ctx.fail("register.new_index_reused_or_skipped", "New(%d) returned indices %s, the model expects %s (indices are allocated consecutively and never reused)" % (s[1], got, s[2]))
                             for r in new:
@@ -191,8 +257,10 @@ class World:
                             ops.Coherent(amp(s[1])) | regs[s[1]]
                         elif s[0] == "rot":
                             ops.Rgate(s[2]) | regs[s[1]]
+                        elif s[0] == "sq":
+                            ops.Sgate(s[2], s[3]) | regs[s[1]]
                         elif s[0] == "bs":
-                            ops.BSgate(s[3], 0.0) | (regs[s[1]], regs[s[2]])
+                            ops.BSgate(s[3], s[4] if len(s) > 4 else 0.0) | (regs[s[1]], regs[s[2]])
                         elif s[0] == "meas":
                             ops.MeasureHomodyne(0.0, select=0.0) | regs[s[1]]
                         elif s[0] == "invalid":
@@ -222,17 +290,29 @@ class World:
                                 return self.ctx.fail("register.rejected_access_modified_program", "[%s] a rejected access changed the circuit" % b)
             except Violation:
                 raise
+            except _FreshUnbuildable:
+                fresh_outcomes[b] = "rejected"
+                continue
             except Exception as exc:  # pylint: disable=broad-except
                 return self._crash(b, exc, "build")
             try:
                 kw = {} if sub_pos is None else {"modes": sub_pos}
                 res = self.eng[b].run(prog, **kw)
             except Exception as exc:  # pylint: disable=broad-except
+                if is_fresh and isinstance(exc, RuntimeError) and "Register mismatch" in str(exc):
+                    fresh_outcomes[b] = "rejected"
+                    continue
                 r = self._crash(b, exc, "run")
                 if r is not None or b in self.dead:
                     continue
                 return r
             self.prev[b] = prog
+            if is_fresh:
+                fresh_outcomes[b] = "accepted"
+                if len(set(fresh_outcomes.values())) > 1:
+                    return self.ctx.fail("fresh_program.inconsistent", "engines disagree on whether a fresh Program may follow: %s" % fresh_outcomes)
+                if deferred is not None:
+                    return self.ctx.fail(*deferred)
             # --- invariants
             reg_idx = [r.ind for r in prog.register]
             if reg_idx != act:
@@ -267,10 +347,27 @@ class World:
                 from vf.core import crash_signature
 
                 return self.ctx.fail("crash.%s.read_state.%s@%s" % (b, type(exc).__name__, crash_signature(exc)[1]), "reading the returned state (active %s, query %s) raised %s: %s" % (act, sub_pos, type(exc).__name__, str(exc)[:120]))
-            exp = [self.model[i] for i in want_idx]
-            d = max([abs(g - e) for g, e in zip(got, exp)] + [0.0])
-            if d > 2e-3:
-                return self.ctx.fail("state.data_under_wrong_label.%s" % b, "modes labelled %s carry amplitudes %s, their indices should carry %s (active %s)" % (want_idx, np.round(got, 3).tolist(), np.round(exp, 3).tolist(), act))
+            if self.flavour == "coherent":
+                exp = [self.model[i] for i in want_idx]
+                d = max([abs(g - e) for g, e in zip(got, exp)] + [0.0])
+                if d > 2e-3:
+                    return self.ctx.fail("state.data_under_wrong_label.%s" % b, "modes labelled %s carry amplitudes %s, their indices should carry %s (active %s)" % (want_idx, np.round(got, 3).tolist(), np.round(exp, 3).tolist(), act))
+            if b in ("gaussian", "bosonic"):
+                # full first and second moments of the returned modes against the Gaussian model of the history
+                mu, V, _ = sfrun.moments_of(st_, b, 2.0)
+                rmu, rV = self.ref.reduced(want_idx)
+                tol = (1e-8 if not self.measured else 2e-4) * (1 + float(np.max(np.abs(rV))))
+                d = max(float(np.max(np.abs(mu - rmu))), float(np.max(np.abs(V - rV))))
+                if d > tol:
+                    return self.ctx.fail("state.moments_under_wrong_label.%s" % b, "means / covariance of the modes labelled %s differ from the model of this history by %.3g (active %s)" % (want_idx, d, act))
+        if fresh and fresh_outcomes:
+            if len(set(fresh_outcomes.values())) > 1:
+                return self.ctx.fail("fresh_program.inconsistent", "engines disagree on whether a fresh Program may follow: %s" % fresh_outcomes)
+            if set(fresh_outcomes.values()) == {"rejected"}:
+                self.labels.add("fresh_program_rejected")
+                self._restore(self.snap)  # nothing was executed: the model goes back to the start of the segment
+            else:
+                self.labels.add("fresh_program_accepted")
         return None
 
     def _bosonic_new_probe(self, seg):
@@ -330,7 +427,7 @@ class World:
 
 
 def check_history(ctx, case):
-    w = World(ctx, case["n0"])
+    w = World(ctx, case["n0"], case.get("flavour", "coherent"))
     hist = list(case["history"])
     if not hist or hist[-1][0] != "run":
         hist.append(["run", None])
@@ -348,11 +445,11 @@ def make_machine(ctx):
             self.case = None
             self.world = None
 
-        @initialize(n0=st.integers(1, 2))
-        def init(self, n0):
-            self.case = {"n0": n0, "history": []}
+        @initialize(n0=st.integers(1, 2), flavour=st.sampled_from(["coherent", "coherent", "squeezed"]))
+        def init(self, n0, flavour):
+            self.case = {"n0": n0, "flavour": flavour, "history": []}
             ctx.begin_case(self.case)
-            self.world = World(ctx, n0)
+            self.world = World(ctx, n0, flavour)
 
         def _do(self, a):
             self.case["history"].append(a)
@@ -374,9 +471,33 @@ def make_machine(ctx):
         def rot(self, p, t):
             self._do(["rot", p, t])
 
-        @rule(p=st.integers(0, 5), q=st.integers(0, 5), t=gen.fl(-1.5, 1.5))
-        def bs(self, p, q, t):
-            self._do(["bs", p, q, t])
+        @rule(p=st.integers(0, 5), q=st.integers(0, 5), t=gen.fl(-1.5, 1.5), ph=st.one_of(st.just(0.0), gen.angle()))
+        def bs(self, p, q, t, ph):
+            self._do(["bs", p, q, t, ph])
+
+        @precondition(lambda self: self.world is not None and self.world.flavour == "squeezed")
+        @rule(p=st.integers(0, 5), r=gen.fl(0.2, 0.8), ph=gen.angle())
+        def sq(self, p, r, ph):
+            self._do(["sq", p, r, ph])
+
+        # Hypothesis enables a random subset of rules per history (swarm testing): sequences that need three particular rules in order are
+        # rare, so the squeeze-mix(-create) sequences are also offered as single rules
+        @precondition(lambda self: self.world is not None and self.world.flavour == "squeezed")
+        @rule(p=st.integers(0, 5), q=st.integers(0, 5), r=gen.fl(0.2, 0.8), ph=gen.angle(), t=gen.fl(0.3, 1.2), ph2=gen.angle(), k=st.integers(0, 2))
+        def entangle(self, p, q, r, ph, t, ph2, k):
+            self._do(["sq", p, r, ph])
+            self._do(["bs", p, q, t, ph2])
+            if k:
+                self._do(["new", k])
+
+        @precondition(lambda self: self.world is not None and len(self.world.active()) >= 2)
+        @rule(k=st.integers(1, 2), last=st.booleans())
+        def delete_run_then_fresh_program_with_new(self, k, last):
+            """the trailing (or first) mode is deleted in one segment; the next segment is written as a brand-new Program and creates a mode"""
+            self._do(["del", len(self.world.active()) - 1 if last else 0])
+            self._do(["run", None, False])
+            self._do(["new", k])
+            self._do(["run", None, True])
 
         @rule(p=st.integers(0, 5))
         def meas(self, p):
@@ -386,9 +507,9 @@ def make_machine(ctx):
         def invalid(self, kind, i):
             self._do(["invalid", kind, i])
 
-        @rule(q=st.one_of(st.none(), st.lists(st.integers(0, 5), min_size=1, max_size=3)))
-        def run(self, q):
-            self._do(["run", q])
+        @rule(q=st.one_of(st.none(), st.lists(st.integers(0, 5), min_size=1, max_size=3)), fresh=st.sampled_from([False, False, False, True]))
+        def run(self, q, fresh):
+            self._do(["run", q, fresh])
 
         def teardown(self):
             if self.world is not None:
@@ -405,7 +526,7 @@ SUBS = [
 ]
 
 MANIFEST = {
-    "technique": "Hypothesis stateful (rule-based) machine; model-based oracle: index -> coherent amplitude; engines of all backends in lock-step",
+    "technique": "Hypothesis stateful (rule-based) machine; model-based oracle: index -> coherent amplitude plus a full Gaussian (refsim) model of every index; engines of all backends in lock-step",
     "text": ("Generated histories of mode creation, deletion, use and measurement over consecutive programs are executed on one engine per "
              "backend and on a model that knows which amplitude every mode index carries; after every segment the program register, "
              "backend.get_modes(), the number, labels and per-mode data of the returned state must agree with the model, indices are never "
